@@ -232,6 +232,9 @@ func (v *Verifier) evalModifies(fr *Frame, con *Contract, vars map[string]Val, s
 func (v *Verifier) evalModEntry(fr *Frame, text string, vars map[string]Val, st *State, pkg *types.Package) []modEntry {
 	env := &Env{fr: nil, vars: vars, cur: st, old: st, pkg: pkg}
 	var out []modEntry
+	if text == "*" {
+		return []modEntry{{comp: "*", all: true}}
+	}
 	addLeaves := func(prefix string, t types.Type, ref Term, elem bool) {
 		for _, sc := range v.leafComps(t) {
 			srt := arrSort(sc.sort)
@@ -243,6 +246,12 @@ func (v *Verifier) evalModEntry(fr *Frame, text string, vars map[string]Val, st 
 			}
 			out = append(out, modEntry{comp: prefix + sc.suffix, sort: srt, ref: ref})
 		}
+	}
+	// cells(T): every heap cell of type T reached through a *T pointer (coarse: pooled buffer headers etc.)
+	if strings.HasPrefix(text, "cells(") && strings.HasSuffix(text, ")") {
+		ct := v.resolveType(pkg, strings.TrimSuffix(strings.TrimPrefix(text, "cells("), ")"))
+		addLeaves("C:"+typeName(ct), ct, "", false)
+		return out
 	}
 	// elems(T): every element of every slice/array with element type T (coarse)
 	if strings.HasPrefix(text, "elems(") && strings.HasSuffix(text, ")") {
@@ -408,6 +417,16 @@ func (fr *Frame) applyContract(ins ssa.Instruction, con *Contract, fn *ssa.Funct
 		pkg = fr.fn.Pkg.Pkg
 	}
 	vars := fr.bindContractEnv(con, fn, args, binds, pkg)
+	if con.FuncSpec {
+		// a funcspec may mention the names of the calling function's contract (e.g. the receiver the function value belongs to)
+		if root := fr.rootFrame(); root != nil {
+			for k2, v2 := range root.envBase {
+				if _, shadow := vars[k2]; !shadow {
+					vars[k2] = v2
+				}
+			}
+		}
+	}
 	v.usedContracts[con.Key] = true
 	if con.Trusted {
 		v.trustedUsed[con.Key] = con.TrustWhy
@@ -442,6 +461,16 @@ func (fr *Frame) applyContract(ins ssa.Instruction, con *Contract, fn *ssa.Funct
 	}
 	// havoc
 	mods := v.evalModifies(fr, con, vars, st, pkg)
+	for _, m := range mods {
+		if m.all {
+			// "modifies *": the callee may change anything
+			fr.rootFrame().havocAll = true
+			nst0 := havocState(fr.ctx, st, "call "+con.Key+" (modifies *)", func(comp string) havocSpec { return havocSpec{mode: hvAll} }, true)
+			st = nst0
+			mods = nil
+			break
+		}
+	}
 	byComp := map[string][]modEntry{}
 	for _, m := range mods {
 		byComp[m.comp] = append(byComp[m.comp], m)
@@ -680,6 +709,9 @@ func (fr *Frame) ret(ins ssa.Instruction, st *State, reach Term, results []Val) 
 		fr.addObl("ensures", lab, implies(reach, t), en.Text, fmt.Sprintf("%s:%d", shortPath(en.File), en.Line), fr.clauseProps(en), en.Canary)
 	}
 	// frame
+	if fr.modifiesAll("*") {
+		return // "modifies *": no frame to establish
+	}
 	if fr.havocAll {
 		fr.addObl("frame", fmt.Sprintf("unbounded@ret%d", nret), not(reach), "function calls code with unbounded effects; frame cannot be established", fr.posOf(ins), fr.props, false)
 		return
@@ -718,6 +750,9 @@ func (root *Frame) modEntries() []modEntry {
 
 func (root *Frame) modifiesAll(comp string) bool {
 	for _, m := range root.modEntries() {
+		if m.all {
+			return true
+		}
 		if m.comp == comp && m.ref == "" {
 			return true
 		}
